@@ -143,5 +143,4 @@ def run(ctx):
 
 
 def replay(ctx, doc):
-    print("replay: rerun the check with VERIF_SEED=%s" % doc.get("seed"))
-    return True
+    return None   # re-run the stream with the recorded seed (check.py does it)
